@@ -443,7 +443,7 @@ def run(chk, only=None):
             jobs.append(('fmt', form, prec, budget))
     for prec in range(0, 4):
         for pprec in ([prec] if quick else range(0, 4)):
-            jobs.append(('fmt-history', 'frac8', prec, pprec, budget))
+            jobs.append(('fmt-history', 'frac8', prec, pprec, max(budget, 1500)))   # about 190 s each on an idle machine: never cut short by the quick budget
     fshapes = [(1, None), (2, None), (3, None), (2, 0), (1, 1), (2, 2), (2, 3)]
     if quick:
         fshapes = [(1, None), (2, None), (3, None), (2, 2), (1, 1)]
